@@ -258,7 +258,16 @@ def o_c02(tr):
             # the printed supply excludes the gov module account (environment): coins a scenario account moves
             # into it (bank.send / stream payout to Mgov) show up as a decrease of the printed figure
             to_gov = any("Mgov" in t["line"] for t in b["txs"])
-            if delta != completed.get(dn, 0) and not (to_gov and delta < completed.get(dn, 0)):
+            # ... and coins a successful governance proposal sends out of it (bank.send Mgov …) as an increase of at most that amount
+            from_gov = 0
+            for gv in b["govs"]:
+                if gv["result"] != "ok":
+                    continue
+                for m in split_msgs(gv["body"]):
+                    if len(m) == 4 and m[0] == "bank.send" and m[1] == "Mgov":
+                        from_gov += coins(m[3]).get(dn, 0)
+            extra = delta - completed.get(dn, 0)
+            if extra != 0 and not (to_gov and extra < 0) and not (0 < extra <= from_gov) and not (to_gov and from_gov and extra <= from_gov):
                 yield {"oracle": "supply-delta", "signature": "delta!=completed", "detail": "block t=%d denom %s: supply delta %d, completed orders %d" % (b["time"], dn, delta, completed.get(dn, 0))}
 
 
